@@ -43,6 +43,32 @@ fire("C70", "mid-circuit-prep-raise-only-for-basisstate",
      (DC, "                if isinstance(op, StatePrepBase):\n                    raise DeviceError(", "                if isinstance(op, ops.BasisState):\n                    raise DeviceError("),
      "R-C70-table", "_OPERATIONS_MAP['StatePrep']")
 
+# ---- R-C70-lookup ---------------------------------------------------------------------------------
+_TRY = ("    try:\n        stim_op = _OPERATIONS_MAP[op.name]\n        stim_tg = map(str, op.wires)\n    except KeyError as e:\n"
+        "        raise DeviceError(\n            f\"Operator {op} not supported with default.clifford and does not provide a decomposition.\"\n        ) from e\n")
+fire("C70", "lookup-get-instead-of-subscript (seed patch2)",
+     (DC, _TRY, "    stim_op = _OPERATIONS_MAP.get(op.name)\n    stim_tg = map(str, op.wires)\n"), "R-C70-lookup", "_pl_op_to_stim")
+fire("C70", "lookup-get-with-identity-default",
+     (DC, _TRY, "    stim_op = _OPERATIONS_MAP.get(op.name, \"I\")\n    stim_tg = map(str, op.wires)\n"), "R-C70-lookup", "_pl_op_to_stim")
+fire("C70", "lookup-keyerror-swallowed",
+     (DC, _TRY, "    try:\n        stim_op = _OPERATIONS_MAP[op.name]\n    except KeyError:\n        stim_op = None\n    stim_tg = map(str, op.wires)\n"),
+     "R-C70-lookup", "_pl_op_to_stim")
+fire("C70", "lookup-membership-guard-falls-through",
+     (DC, _TRY, "    stim_op = None\n    if op.name in _OPERATIONS_MAP:\n        stim_op = _OPERATIONS_MAP[op.name]\n    stim_tg = map(str, op.wires)\n"),
+     "R-C70-lookup", "_pl_op_to_stim")
+fire("C70", "diagonalizing-gate-check-skips-instead-of-raising",
+     (DC, "            if diag_op.name not in _OPERATIONS_MAP:  # pragma: no cover\n                raise ValueError(\n"
+          "                    f\"Currently, we only support observables whose diagonalizing gates are Clifford, got {diag_op}\"\n                )\n",
+          "            if diag_op.name not in _OPERATIONS_MAP:  # pragma: no cover\n                continue\n"),
+     "R-C70-lookup", "_measure_probability")
+silent("C70", "lookup-guarded-by-membership-test-that-raises",
+       [(DC, _TRY, "    if op.name not in _OPERATIONS_MAP:\n        raise DeviceError(f\"Operator {op} not supported with default.clifford and does not provide a decomposition.\")\n"
+                   "    stim_op = _OPERATIONS_MAP[op.name]\n    stim_tg = map(str, op.wires)\n")])
+silent("C70", "lookup-keyerror-propagates-or-wider-handler-reraises",
+       [(DC, _TRY, "    name = op.name\n    try:\n        stim_op = _OPERATIONS_MAP[name]\n    except (KeyError, TypeError) as exc:\n"
+                   "        msg = f\"Operator {op} not supported with default.clifford and does not provide a decomposition.\"\n        raise DeviceError(msg) from exc\n"
+                   "    stim_tg = map(str, op.wires)\n")])
+
 # ---- behaviour-preserving controls --------------------------------------------------------------
 silent("C70", "reorder-table-entries",
        [(DC, '    "Identity": "I",\n    "PauliX": "X",\n', ""), (DC, '    "DepolarizingChannel": "DEPOLARIZE1",\n}', '    "DepolarizingChannel": "DEPOLARIZE1",\n    "PauliX": "X",\n    "Identity": "I",\n}')])
